@@ -20,7 +20,7 @@ import numpy as np
 import xarray as xr
 
 import facegrid as fg
-from common import dyadic, enc_rat, exc_kind
+from common import dyadic, enc_rat, exc_kind, fillv
 
 RULE = ("decompositions Kx,Ky in 1..3 (thorough ..4), N in 2..5, periodic/open per global axis, random "
         "orientations filtered to expressible junctions; all four operators x both axes x to in "
@@ -158,7 +158,7 @@ def gen_case(rng, tier, i):
     return {"Kx": Kx, "Ky": Ky, "N": N, "per": per, "orient": orient, "extra": extra, "order": order, "G": G,
             "func": rng.choice(["diff", "interp", "min", "max"]), "axis": rng.choice(["X", "Y"]),
             "to": rng.choice(["left", "right"]), "rule": rng.choice(["fill", "extend", "periodic"]),
-            "fill": dyadic(rng)}
+            "fill": fillv(rng)}
 
 
 def face_data(case, G):
